@@ -12,7 +12,8 @@ NOT_BUILT_REASON = "no generated-input check has been built for this property ye
 
 def main() -> None:
     props = [json.loads(l) for l in (ROOT / "properties.jsonl").read_text().splitlines() if l.strip()]
-    mods = {m.PROPERTY: m for m in all_checks()}
+    import vf.manifest_extra as extra_mod
+    mods = {m.PROPERTY: m for m in all_checks() if m.PROPERTY in extra_mod.READY}
     checks = []
     for p in props:
         m = mods.get(p["id"])
